@@ -288,8 +288,8 @@ Proof.
         inversion Hwf' as [|? ? _ Hw]; subst.
         destruct (IH fs fs' rem Hs2 Hbytes Hst Hst' Hw) as [-> ->]. auto. }
   destruct Hout as [-> ->].
-  cbn [ro_dispatched ro_carry ro_errors].
-  rewrite Hcat, !bytes_eqb_refl, (list_eqb_refl disp_eqb disp_eqb_refl). reflexivity.
+  cbn [ro_dispatched ro_carry ro_errors ro_reads].
+  rewrite Hcat, !bytes_eqb_refl, (list_eqb_refl disp_eqb disp_eqb_refl), !PeanoNat.Nat.eqb_refl. reflexivity.
 Qed.
 
 Example rd_nonvacuous :
